@@ -27,9 +27,11 @@ SPECS = {
     "C17": dict(families={"end", "endfx", "coherence"}, level="proof",
                 text="Per emitted program with EOF support: for every state the end() block performs the abstract machine's end-of-input step (actions, fall-through chain) and returns DONE iff the machine ends in an accepting state "
                      "(finish code if the actions finish), FAIL otherwise."),
-    "C04": dict(families={"term", "coherence"}, level="proof",
+    "C04": dict(families={"term", "coherence", "consume"}, level="proof",
                 text="Per emitted program: the graph of non-consuming moves of end() is acyclic; every cycle of non-consuming moves of feed (fall-through, overflow redirect, break, condition branch) is proved infeasible within 3 laps "
-                     "or to strictly increase a bounded length counter; a closed recurrence set is reported as a violation and replayed on the compiled C under a wall-clock limit."),
+                     "or to strictly increase a bounded length counter; a closed recurrence set is reported as a violation and replayed on the compiled C under a wall-clock limit. "
+                     "The cycle analysis classifies a move as consuming from the machine's transition; that the C text advances the pointer exactly as often (never moves it back, so no byte is dispatched twice) "
+                     "is the `consume` family, discharged here as well."),
 }
 
 
@@ -65,6 +67,13 @@ def programs_for(prop):
 def main_for(prop):
     spec = SPECS[prop]
     rep, recs = T.run(prop, spec["families"], spec["level"], spec["text"], optsets=optsets_for(prop), programs=programs_for(prop), fns=CODEGEN_FNS)
+    if prop == "C02":
+        # induction on the cuts, machine-checked (Lean 4, core library): the per-program obligations above are its hypotheses H1/H2
+        from .. import lemmas
+        lemmas.check(rep, "C02", "Chunking.lean", ["drive_chunks_eq_whole", "one_cut", "bytewise"])
+        rep.coverage["lemma"] = ("L-cuts (vf/lemmas/Chunking.lean, checked by lean on every run): a driver that dispatches one byte at a time on the stored state (H1: obligations "
+                                 "coherence/dispatch/consume) and for which OK-at-a-cut followed by re-entry is the identity (H2: return-OK sites, prologue end check) yields the same events, codes at the same "
+                                 "absolute offsets and final state for every chunking.  The correspondence between the C text and that driver is what the per-program obligations establish; it is not itself a Lean statement.")
     rep.coverage["bound"] = "property-level quantifier over programs is bounded to the program set (repo corpus + /verif/corpus + generated); per program all inputs, data states and chunkings are covered by the discharged obligations"
     return rep.finish(spec["text"], checker_cmd=f"./check {prop}")
 
